@@ -363,6 +363,41 @@ def run(ctx, res):
                 res.undecided(rid6, u["what"], u.get("where"))
     except mir.AnchorLost as e:
         res.undecided(rid6, str(e))
+    # R8: a lexical alternative is a head; a head filed in a sub-frontier must not silently displace another one
+    rid8 = res.rule("C06-R8", "GLR create_frontier: a head is filed under (position, token kind) -> state only after asking whether "
+                    "that slot is taken (or the displaced head is looked at): two heads that reach one state by tokens of "
+                    "different length and meet after layout skipping are both followed", floor=1)
+    try:
+        g, cpaths = rt.cache(F).paths(rt.GLR + "create_frontier$")
+    except mir.AnchorLost as e:
+        g, cpaths = None, []
+        res.undecided(rid8, str(e))
+    n_ins = 0
+    bad = False
+    for p in cpaths:
+        asked = False
+        for t_, _v in p.cond:
+            if mir.contains(t_, lambda x: isinstance(x, tuple) and x and x[0] == "call" and isinstance(x[1], str)
+                            and "BTreeMap" in x[1] and x[1].rsplit("::", 1)[-1] in ("contains_key", "get", "get_mut", "insert")):
+                asked = True
+        for e in p.events:
+            if e[0] == "call" and "BTreeMap" in e[1] and e[1].endswith("::insert") and len(e[2]) > 2 \
+                    and mir.has_call(e[2][1], "::state"):
+                n_ins += 1
+                if not asked:
+                    bad = True
+            if e[0] == "call" and "Entry" in e[1] and e[1].rsplit("::", 1)[-1] in ("or_insert", "or_insert_with") \
+                    and mir.contains(e[2][0], lambda x: isinstance(x, tuple) and x and x[0] == "call" and mir.has_call(x, "::state")):
+                n_ins += 1
+    if g is not None:
+        if n_ins == 0:
+            res.anchor_lost(rid8, "no insert of a head under its state in create_frontier", g.loc())
+        elif bad:
+            res.violation(rid8, "create_frontier/insert-displaces", "create_frontier files a head with insert(state, head) without "
+                          "asking whether the (position, kind, state) slot already holds another head: the earlier head and the "
+                          "lexical alternative it stands for are dropped", g.loc())
+        else:
+            res.ok(rid8, "create_frontier/insert-displaces", g.loc())
     res.explanation = (
         "Decides the structure of lexical disambiguation: candidate set, stable descending sort and its key table (priority "
         "x 1000 + string length under most-specific), finish-flag tables, the lexer's stop table, the parser-side filters of "
